@@ -32,7 +32,7 @@ def parse_case(line):
     ns = int(t[1])
     cfgs = [tuple(int(x) for x in t[2 + 6 * k: 8 + 6 * k]) for k in range(ns)]
     i = 2 + 6 * ns
-    ar = {"A": 1, "W": 1, "S": 6, "T": 0, "K": 2, "P": 3, "R": 2, "N": 4, "D": 2, "I": 1, "X": 2, "Q": 0}
+    ar = {"A": 1, "W": 1, "S": 6, "T": 0, "K": 2, "P": 3, "R": 2, "N": 4, "D": 2, "I": 1, "X": 2, "G": 2, "O": 4, "Q": 0}
     ev = []
     while i < len(t):
         n = ar.get(t[i])
@@ -78,7 +78,7 @@ def compare(line, mo, co):
     """None if the implementation's trace equals the model's (up to the documented relaxation)"""
     if mo == co:
         return None
-    cfgs, ev = parse_case(line)
+    cfgs, ev = parse_case(model_line(line, co))
     if not relaxed_wait(ev):
         return "trace differs"
     mi, ci = parse_items(mo), parse_items(co)
@@ -127,14 +127,42 @@ def readback_cfgs(line, out):
 
 
 def model_line(line, out):
-    """the case line with the session settings replaced by the read-back values"""
+    """the case line as the model and the oracle get it: session settings replaced by the read-back
+    values; an Observe notification (raw event 'O <sess> <r>': the library chooses its mid and
+    builds its bytes) replaced by 'O <sess> <mid> <bytes> <r>' with what the library transmitted
+    first in that event - or by 'T' if it sent nothing (observer gone); the mid 'L' (last
+    notification of the session) replaced by that number"""
     rb = readback_cfgs(line, out)
-    if rb is None:
-        return line
     t = line.split()
-    for k, c in enumerate(rb):
-        t[2 + 6 * k: 8 + 6 * k] = [str(x) for x in c]
-    return " ".join(t)
+    if rb is not None:
+        for k, c in enumerate(rb):
+            t[2 + 6 * k: 8 + 6 * k] = [str(x) for x in c]
+    ns = int(t[1])
+    if " O " not in line and " L" not in line:
+        return " ".join(t)
+    head, i = t[:2 + 6 * ns], 2 + 6 * ns
+    ar = {"A": 1, "W": 1, "S": 6, "T": 0, "K": 2, "P": 3, "R": 2, "N": 4, "D": 2, "I": 1, "X": 2, "G": 2, "O": 2, "Q": 0}
+    items = parse_items(" ".join(w for w in out.split() if ".cfg:" not in w))
+    res, ei, last = [], 0, {}
+    while i < len(t) and t[i] in ar:
+        e = t[i:i + 1 + ar[t[i]]]
+        i += len(e)
+        if e[0] == "O":
+            sidx = int(e[1]) % ns
+            its = [x for x in items if x[0] == ei]
+            if its and its[0][1] == "tx" and int(its[0][2][1]) == sidx and not its[0][2][2].startswith("#"):
+                b = its[0][2][2]
+                mid = int(b[4:8], 16)
+                last[sidx] = mid
+                e = ["O", e[1], str(mid), b, e[2]]
+            else:
+                e = ["T"]
+        elif e[0] in ("K", "P", "R", "X") and e[2] == "L":
+            e = list(e)
+            e[2] = str(last.get(int(e[1]) % ns, 65535))
+        res += e
+        ei += 1
+    return " ".join(head + res)
 
 
 def run_pair(model, drv, lines):
@@ -147,8 +175,8 @@ def run_pair(model, drv, lines):
 
 def impl_oracle(line, out):
     """Evaluate the property on what the implementation did.  Returns (problems, facts)."""
+    line = model_line(line, out)
     cfgs, ev = parse_case(line)
-    cfgs = readback_cfgs(line, out) or cfgs
     items = parse_items(out)
     items = [i for i in items if i[1] != "cfg"]
     ns = len(cfgs)
@@ -383,6 +411,30 @@ def impl_oracle(line, out):
                     stats["disc"] += 1
             fog = {key for key in fog if key[0] != s}
             continue
+        if k == "G":
+            continue
+        if k == "O":
+            # a Confirmable notification generated and sent inside the prepare call: accepted like a
+            # coap_send at the start of the call; the wait the call reports must cover it
+            s, mid, b = int(e[1]) % ns, int(e[2]), e[3]
+            stats["sent"] += 1
+            if not its or its[0][1] != "tx" or its[0][2][2] != b:
+                problems.append("notification of session %d: first item %s" % (s, its[:1]))
+                continue
+            t = int(its[0][2][0])
+            if t != now:
+                problems.append("notification stamped %d at %d" % (t, now))
+            tkl = int(b[1], 16)
+            rec = {"sess": s, "mid": mid, "bytes": b, "tx": [t], "cfg": cfgs[s], "T": None,
+                   "code": int(b[2:4], 16), "out": None, "taint": False, "tok": (b[8:8 + 2 * tkl] or "-")}
+            if (s, mid) not in fog:
+                l = live.setdefault((s, mid), [])
+                l.append(rec)
+                if len(l) > 1:
+                    fog.add((s, mid))
+                    live.pop((s, mid), None)
+            process_fired(its[1:])
+            continue
         if k == "S":
             s, mid, code = int(e[1]) % ns, int(e[2]), int(e[3])
             stats["sent"] += 1
@@ -616,6 +668,8 @@ def main(run):
         gens.append(G.gen_ioloop_case(r))
     for _ in range(700 if quick else 25000):
         gens.append(G.gen_held_case(r))
+    for _ in range(300 if quick else 10000):
+        gens.append(G.gen_observe_case(r))
     for _ in range(40 if quick else 1000):
         gens.append(G.gen_separate_case(r))
     for c in gens:
@@ -640,7 +694,7 @@ def main(run):
         run.hist("kind", kind)
         run.hist("sessions", ln.split()[1])
         run.hist("messages", min(facts.get("sent", 0), 8))
-        run.hist("events", min(len(parse_case(ln)[1]) // 10 * 10, 100))
+        run.hist("events", min(len(parse_case(model_line(ln, co))[1]) // 10 * 10, 100))
         if i % 400 == 7:
             run.sample({"case": ln[:400], "impl": co[:400]})
         bad = None
